@@ -25,7 +25,7 @@ package http
 //@   requires h != nil && h.Service != nil
 //@   stable h.Service, h.Service.MaxRequestLength
 //@   atcall Handle [body_read_completely_and_without_error] data == nil || (off(data) == 0 && ghost.bufn[arr(data)] == len(data))
-//@   atcall Handle [bytes_come_from_the_request_body_itself] data == nil || ghost.bufsrc[arr(data)] == ival(request.Body)
+//@   atcall Handle [bytes_come_from_the_request_body_itself] data == nil || ghost.bufsrc[arr(data)] == ival(old(request.Body))
 //@   ensures [processed_only_within_limit] ghost.handled == old(ghost.handled) || len(ghost.handled_req) <= h.Service.MaxRequestLength
 //@   ensures [declared_too_large_is_refused_unprocessed] old(request.ContentLength) > old(h.Service.MaxRequestLength) ==> ghost.handled == old(ghost.handled)
 //@   ensures [declared_too_large_is_answered_413] old(request.ContentLength) > old(h.Service.MaxRequestLength) ==> ghost.http_status[ival(response)] == 413
